@@ -1408,7 +1408,9 @@ namespace bloch::runtime {
         }
     }
 
-    void RuntimeEvaluator::destroyObject(Object* obj, bool runUserDestructor) {
+    void RuntimeEvaluator::destroyObject(const std::shared_ptr<Object>& storage,
+                                         bool runUserDestructor) {
+        Object* obj = storage.get();
         if (!obj || obj->destroyed)
             return;
         obj->destroyed = true;
@@ -1430,7 +1432,10 @@ namespace bloch::runtime {
                 beginScope();
                 Value thisVal;
                 thisVal.type = Value::Type::Object;
-                thisVal.objectValue = std::shared_ptr<Object>(obj, [](Object*) {});
+                // 'this' shares ownership of the storage: a destructor that stores it somewhere
+                // keeps the (destroyed, field-less) object valid instead of leaving a dangling
+                // reference behind
+                thisVal.objectValue = storage;
                 thisVal.className = cur->name;
                 m_env.back()["this"] = {thisVal, false, true};
                 try {
@@ -2409,8 +2414,11 @@ namespace bloch::runtime {
                                  "cannot instantiate static or abstract class '" + cls->name + "'");
             }
             auto deleter = [this](Object* obj) {
-                destroyObject(obj, !obj->skipDestructor);
-                delete obj;
+                // The last reference is gone: run the destructor and release the qubits now.
+                // The storage itself is freed when 'storage' and every copy of 'this' the
+                // destructor may have made are gone.
+                std::shared_ptr<Object> storage(obj);
+                destroyObject(storage, !obj->skipDestructor);
             };
             auto obj = std::shared_ptr<Object>(new Object{}, deleter);
             obj->cls = cls;
